@@ -143,4 +143,16 @@ RadixLit(bits) ==
     (IF Len(b) = 32 THEN [t |-> "L", v |-> BitsVal(Tail(b), 0) - MaxL - 1]   \* sign bit set
      ELSE [t |-> "L", v |-> BitsVal(b, 0)])
   ELSE [t |-> "overflow", v |-> 0]
+
+\* a unary minus directly in front of an &H / &O literal: the value is the negated value, in a type that holds it
+\* (the minimum of each type widens: -&H8000 = 32768 is a LONG, -&H80000000 is a DOUBLE); whether a small value
+\* of a LONG literal narrows to INTEGER is not fixed by the property.  Result: the set of admissible [t, v].
+NegRadixOK(bits, t, v) ==
+  LET e == RadixLit(bits) IN
+  IF e.t = "overflow" THEN TRUE
+  ELSE IF e.v = 0 - MaxL - 1 THEN t = "D"
+  ELSE LET nv == 0 - e.v IN
+       /\ v = nv
+       /\ \/ (t = "I" /\ nv >= 0 - MaxI - 1 /\ nv <= MaxI)
+          \/ (t = "L" /\ (e.t = "L" \/ nv > MaxI))
 =============================================================================
